@@ -12,7 +12,7 @@ DISTINCT_RULE = (
     "Betfair (live double) and Betdaq clients; distinct = (kind, order status at request, refusal reason, force) cells of refused requests, (kind, force) of accepted ones, "
     "(kind, size class) of packages"
 )
-RULES = ["refused", "accepted", "package", "group-order", "package-version", "tx-end", "own-account"]
+RULES = ["refused", "accepted", "package", "group-order", "package-version", "tx-end", "own-account", "control-refusal"]
 MINIMA = {"quick": {"rule_refused": 8000, "rule_accepted": 20000, "rule_package": 3000, "rule_tx-end": 5000}, "thorough": {"rule_refused": 200000}}
 ASSUMPTIONS = [
     "snapshot = order fields, trade status/log, blotter membership and views, runner context, transaction pending lists (vf.simrun.world_view)",
